@@ -43,17 +43,22 @@ def vsForModel (vss : List VirtualService) (hostname : String) : Option VirtualS
 def defaultRoute (port : Nat) (host : String) : Route :=
   { name := "default", «match» := {}, action := .cluster (subsetKey "" host port) }
 
-/-- Routes of the virtual host of a service: its VirtualService's routes when it has one with rules for
-    this proxy, the default route otherwise. -/
+/-- The VirtualService whose wrapper serves a service.  A non-wildcard VirtualService host is looked up
+    directly in the registry (every VirtualService listing the hostname gets the service; the first one
+    with routes for this proxy wins the virtual-host name); otherwise only the VirtualService the
+    most-specific index names for the service is considered. -/
+def vsChoiceModel (c : Ctx) (vss : List VirtualService) (hostname : String) : Option VirtualService :=
+  let exact := vss.filter (fun v => v.hosts.contains hostname)
+  if !exact.isEmpty then exact.find? (fun v => !(compile (sidecarCtx c) v).isEmpty)
+  else (vsForModel vss hostname).filter (fun v => !(compile (sidecarCtx c) v).isEmpty)
+
+/-- Routes of the virtual host of a service: that VirtualService's routes, the default route otherwise. -/
 def routesForSvc (c : Ctx) (vss : List VirtualService) (s : MeshSvc) : List Route :=
-  match vsForModel vss s.host with
-  | some vs => if (compile (sidecarCtx c) vs).isEmpty then [defaultRoute c.listenPort s.host] else compile (sidecarCtx c) vs
+  match vsChoiceModel c vss s.host with
+  | some vs => compile (sidecarCtx c) vs
   | none => [defaultRoute c.listenPort s.host]
 
-def hasWrapper (c : Ctx) (vss : List VirtualService) (s : MeshSvc) : Bool :=
-  match vsForModel vss s.host with
-  | some vs => !(compile (sidecarCtx c) vs).isEmpty
-  | none => false
+def hasWrapper (c : Ctx) (vss : List VirtualService) (s : MeshSvc) : Bool := (vsChoiceModel c vss s.host).isSome
 
 def insertSvcByHost (s : MeshSvc) : List MeshSvc → List MeshSvc
   | [] => [s]
@@ -68,7 +73,7 @@ def sortSvcsByHost : List MeshSvc → List MeshSvc
 def vhostOrder (c : Ctx) (m : Mesh) : List MeshSvc :=
   let on := m.svcs.filter (fun s => s.ports.contains c.listenPort)
   (m.vss.flatMap (fun vs => sortSvcsByHost (on.filter (fun s => hasWrapper c m.vss s &&
-      (match vsForModel m.vss s.host with | some v => v.name == vs.name && v.ns == vs.ns | none => false)))))
+      (match vsChoiceModel c m.vss s.host with | some v => v.name == vs.name && v.ns == vs.ns | none => false)))))
   ++ sortSvcsByHost (on.filter (fun s => !hasWrapper c m.vss s))
 
 def svcDomains (c : Ctx) (m : Mesh) (s : MeshSvc) : List String × List String :=
@@ -120,6 +125,17 @@ def certHygiene (c : Ctx) (m : Mesh) : Bool :=
   && m.svcs.all (fun s => !isWildcarded s.host)
   && decide ((c.services.map (·.host)).Nodup)
 
-def rdsCert (c : Ctx) (m : Mesh) : Bool := certNoDrop c m && certNames c m && certPlain c m && certHygiene c m
+/-- F-C12-6 side condition: where a service is served through a wildcard host, the index's
+    VirtualService (the oldest listing the most specific wildcard) is also the oldest one with a rule for
+    this proxy among those listing it. -/
+def certWild (c : Ctx) (m : Mesh) : Bool :=
+  (onPort c m).all fun s =>
+    decide (((longestStr (matchingWildcards m.vss s.host)).bind (oldestWithHost m.vss)).filter (vsApplies c)
+      = (match longestStr (matchingWildcards m.vss s.host) with
+         | some h => (m.vss.filter (fun v => v.hosts.contains h)).find? (vsApplies c)
+         | none => none))
+
+def rdsCert (c : Ctx) (m : Mesh) : Bool :=
+  certNoDrop c m && certNames c m && certPlain c m && certHygiene c m && certWild c m
 
 end IstioModel.C12
